@@ -2,6 +2,7 @@ package c06
 
 import (
 	"fmt"
+	"strings"
 	"testing"
 
 	"google.golang.org/protobuf/internal/impl"
@@ -203,7 +204,15 @@ func drawCase(t *rapid.T) decCase {
 	c.Type = gen.TypeName(types, rich).Draw(t, "type")
 	md := corpus.ByName(c.Type).Descriptor()
 	c.Limit = rapid.SampledFrom([]int{0, 0, 0, 1, 2, 3, 4, 6, 9, 12}).Draw(t, "limit")
-	switch rapid.IntRange(0, 5).Draw(t, "source") {
+	src := rapid.IntRange(0, 6).Draw(t, "source")
+	if src == 6 {
+		if b, kind, ok := packedFault(t, md); ok {
+			c.Source, c.B = "packed-fault-"+kind, b
+			return c
+		}
+		src = 0
+	}
+	switch src {
 	case 0, 1:
 		c.Source = "wellformed"
 		v := gen.DrawMessage(t, md, gen.DefaultMsgOpts)
@@ -212,6 +221,10 @@ func drawCase(t *rapid.T) decCase {
 		v := gen.DrawMessage(t, md, gen.DefaultMsgOpts)
 		base := model.Encode(md, v, gen.RapidChooser{T: t}, model.AllPerturbations, nil)
 		var kind string
+		if rapid.IntRange(0, 4).Draw(t, "wrongwire") == 0 {
+			c.B, c.Source = gen.InjectWrongWire(t, md, base), "wrong-wiretype"
+			return c
+		}
 		if rapid.Bool().Draw(t, "deepmut") {
 			c.B, kind = gen.MutateDeep(t, base)
 		} else {
@@ -239,10 +252,10 @@ func drawCase(t *rapid.T) decCase {
 func TestDecode(t *testing.T) {
 	pbt.Run(t, pbt.Prop[decCase]{
 		Name: "decode",
-		Rule: "types: every generated (table-driven) message type, 1/5 lazy-capable; inputs: perturbed-but-valid encodings of generated content, their mutations (truncate/flip/insert/delete/badlen/overlong/wiretype/zerotag/endgroup/splice/bigvarint), raw bytes, chains of nested known messages/groups/map entries within ±2 of the drawn RecursionLimit (default or 1..12). non-trivial = malformed input whose first field is well-formed, or well-formed input with >= 3 records, or a chain",
+		Rule: "types: every generated (table-driven) message type, 1/5 lazy-capable; inputs: perturbed-but-valid encodings of generated content, their mutations (truncate/flip/insert/delete/badlen/overlong/wiretype/zerotag/endgroup/splice/bigvarint/retype/rawvarint), packed runs of a repeated scalar field (top level or below message fields) with one hostile element (10-byte overflow, largest 10-byte value, 11 bytes, unterminated, padded, partial fixed-width element), raw bytes, chains of nested known messages/groups/map entries within ±2 of the drawn RecursionLimit (default or 1..12). non-trivial = malformed input whose first field is well-formed, or well-formed input with >= 3 records, or a chain, or a packed-run fault",
 		Draw: drawCase, Check: checkDecode,
 		NonTrivial: func(c decCase) bool {
-			if c.Source == "chain" {
+			if c.Source == "chain" || strings.HasPrefix(c.Source, "packed-fault-") {
 				return true
 			}
 			recs, ok := ref.Split(c.B)
